@@ -468,17 +468,17 @@ def solve_obligation(ob, timeout_ms=10000, want_model=True):
                     return "proved", "z3+sum-congruence", time.time() - t0, None
             except z3.Z3Exception:
                 pass
-    # second opinions on the SMT-LIB dump
-    smt = s.to_smt2()
-    for name, cmd in (("cvc5", ["/usr/bin/cvc5", "--strings-exp", "--tlimit=30000", "--lang=smt2"]),
-                      ("z3-4.8", ["/usr/bin/z3", "-smt2", "-T:30", "-in"])):
-        try:
-            p = subprocess.run(cmd + ([] if name == "z3-4.8" else ["-"]), input=smt, capture_output=True, text=True, timeout=40)
-            out = p.stdout.strip().splitlines()
-            if out and out[0] == "unsat":
-                return "proved", name, time.time() - t0, None
-            if out and out[0] == "sat":
-                return "refuted", name, time.time() - t0, None
-        except Exception:
-            pass
+            # second opinions on the SMT-LIB dump (cvc5 decides many string VCs that z3 leaves open) before the long attempts
+            smt = s.to_smt2()
+            for name, cmd in (("cvc5", ["/usr/bin/cvc5", "--strings-exp", "--tlimit=30000", "--lang=smt2"]),
+                              ("z3-4.8", ["/usr/bin/z3", "-smt2", "-T:30", "-in"])):
+                try:
+                    p = subprocess.run(cmd + ([] if name == "z3-4.8" else ["-"]), input=smt, capture_output=True, text=True, timeout=40)
+                    out = p.stdout.strip().splitlines()
+                    if out and out[0] == "unsat":
+                        return "proved", name, time.time() - t0, None
+                    if out and out[0] == "sat":
+                        return "refuted", name, time.time() - t0, None
+                except Exception:
+                    pass
     return "unknown", "z3", time.time() - t0, None
